@@ -594,7 +594,10 @@ impl Prop for TerminationThreads {
         if depth.is_none() {
             acts.retain(|a| *a != Act::StopAfterCompletion);
         }
-        let artifact = if case.fresh_memory { None } else { Some(search::new_artifact(case.hasher_seed, Geometry { tables: 8, buckets: 1024 })) };
+        // a terminal root with no previous memory is a path of its own in analyze_iterative (seeded change C04h):
+        // a third of the terminal roots start from the engine's own fresh memory
+        let fresh_memory = case.fresh_memory || (terminal && case.seed % 3 == 0);
+        let artifact = if fresh_memory { None } else { Some(search::new_artifact(case.hasher_seed, Geometry { tables: 8, buckets: 1024 })) };
         let state = glue::state_direct(&pos);
         let t0 = Instant::now();
         let (handle, tx, rx) = Searcher::new().analyze(state, case.seed, Evaluator::default(), depth, artifact);
@@ -650,19 +653,19 @@ impl Prop for TerminationThreads {
         let (jtx, jrx) = mpsc::channel();
         std::thread::spawn(move || {
             let r = handle.join();
-            let _ = jtx.send(r.is_ok());
+            let _ = jtx.send(r.ok());
         });
         let joined = jrx.recv_timeout(self.watchdog);
         let elapsed = t0.elapsed();
         // the caller keeps `tx` until here (a caller holding the control sender must not hang)
         drop(tx);
-        match joined {
+        let returned = match joined {
             Err(_) => {
                 return Err(format!("{}: the search thread had not returned its artifact {:?} after the last request (join watchdog)", ctxs, self.watchdog));
             }
-            Ok(false) => return Err(format!("{}: join() reports a panic in the search threads", ctxs)),
-            Ok(true) => {}
-        }
+            Ok(None) => return Err(format!("{}: join() reports a panic in the search threads", ctxs)),
+            Ok(Some(a)) => a,
+        };
         if let Some(r) = &rx {
             while let Ok(e) = r.try_recv() {
                 collect(e, &mut lines);
@@ -674,6 +677,51 @@ impl Prop for TerminationThreads {
             }
             search::check_line(&pos, l).map_err(|e| format!("{}: {}", ctxs, e))?;
         }
+        // "the returned artifact can seed the next search": a depth-limited follow-up search of a position
+        // with legal moves, seeded with what the thread returned, ends by itself, does not panic and reports a legal line
+        {
+            const FOLLOW: [&str; 4] = [
+                "rnbqkbnr/pppppppp/8/8/8/8/PPPPPPPP/RNBQKBNR w KQkq - 0 1",
+                "8/8/8/4k3/8/8/8/R3K3 w Q - 0 1",
+                "r3k2r/p1ppqpb1/bn2pnp1/3PN3/1p2P3/2N2Q1p/PPPBBPPP/R3K2R w KQkq - 0 1",
+                "8/2p5/3p4/KP5r/1R3p1k/8/4P1P1/8 b - - 0 1",
+            ];
+            let fpos = if terminal || case.seed % 2 == 0 { crate::oracle::rules::Pos::from_fen(FOLLOW[(case.seed >> 8) as usize % 4]).unwrap() } else { pos.clone() };
+            let fdepth = 1 + (case.seed >> 16) as usize % 2;
+            let fctx = format!("{}; then Searcher::analyze('{}', depth {}) seeded with the returned artifact", ctxs, fpos.fen(), fdepth);
+            let (h2, tx2, rx2) = Searcher::new().analyze(glue::state_direct(&fpos), case.seed ^ 1, Evaluator::default(), Some(fdepth), Some(returned));
+            let deadline = Instant::now() + self.watchdog;
+            let mut flines = vec![];
+            loop {
+                match rx2.recv_timeout(deadline.saturating_duration_since(Instant::now())) {
+                    Ok(e) => collect(e, &mut flines),
+                    Err(mpsc::RecvTimeoutError::Disconnected) => break,
+                    Err(mpsc::RecvTimeoutError::Timeout) => {
+                        return Err(format!("{}: the seeded depth-limited search did not finish within {:?}", fctx, self.watchdog));
+                    }
+                }
+            }
+            let (jtx2, jrx2) = mpsc::channel();
+            std::thread::spawn(move || {
+                let _ = jtx2.send(h2.join().is_ok());
+            });
+            match jrx2.recv_timeout(self.watchdog) {
+                Err(_) => return Err(format!("{}: the seeded search thread did not return (join watchdog {:?})", fctx, self.watchdog)),
+                Ok(false) => return Err(format!("{}: join() reports a panic in the seeded search", fctx)),
+                Ok(true) => {}
+            }
+            drop(tx2);
+            if flines.is_empty() {
+                return Err(format!("{}: the seeded search finished without reporting a move", fctx));
+            }
+            for l in flines.iter() {
+                search::check_line(&fpos, l).map_err(|e| format!("{}: {}", fctx, e))?;
+            }
+            loc.class("follow_up_search_on_returned_artifact");
+            if terminal && fresh_memory {
+                loc.class("follow_up_after_terminal_root_with_fresh_memory");
+            }
+        }
         loc.eval();
         loc.nontrivial(&(pos.fen4(), format!("{:?}", case.acts), case.depth));
         if terminal {
@@ -682,7 +730,7 @@ impl Prop for TerminationThreads {
         if rx.is_none() {
             loc.class("receiver_dropped");
         }
-        if case.fresh_memory {
+        if fresh_memory {
             loc.class("fresh_1GiB_memory");
         }
         loc.class(if elapsed < Duration::from_millis(100) { "joined_under_100ms" } else if elapsed < Duration::from_secs(2) { "joined_under_2s" } else { "joined_slowly" });
